@@ -225,8 +225,12 @@ class Commands(Stage):
         specs = histgen.history(d, nconn=d.int(1, 2), nmsg=d.int(0, 8), profile=PROFILE) if d.chance(0.7) else []
         cmds = []
         for _ in range(d.int(1, 5)):
-            k = d.int(0, 9)
-            if k <= 4:
+            k = d.int(0, 11)
+            if k >= 10:
+                # a command whose argument is itself a command word or just the GDB-style prefix
+                c = d.choice(['help', 'h', 'wl help', 'wlhelp', 'w help', 'list', 'filter', 'breakpoint', 'connection', 'matcher', 'wl list', 'wlconnection', 'resume', 'quit']) + ' ' + d.choice(
+                    ['wl', 'w', 'wl ', 'wl wl', 'wlhelp', 'wl help', 'help', 'list', 'wllist', 'wl list', ' ', '~', 'all', '', 'wl  ', 'wlwl', 'wl~', 'wl ~ 2'])
+            elif k <= 4:
                 c = ' '.join(d.choice(COMMAND_WORDS) for _ in range(d.int(0, 3)))
                 if d.chance(0.6):
                     c += ' ' + gen_matcher_text(d)
